@@ -196,7 +196,7 @@ def sweep_to_proto(
         if len(sweep.points) == 1:
             _add_sweep_const(out.single_sweep, sweep.points[0], use_float64)
         else:
-            if isinstance(sweep.points[0], tunits.Value):
+            if len(sweep.points) and isinstance(sweep.points[0], tunits.Value):
                 unit = sweep.points[0].unit
                 if use_float64:
                     out.single_sweep.points.points_double.extend(p[unit] for p in sweep.points)
